@@ -634,6 +634,8 @@ def kernel_jobs(tier, names):
         elif nm == "bitset":
             for n1 in (1, 2):
                 for n2 in (1, 2):  # three inserts after the clear: the solver returns unknown (timeouts) on the assertion
+                    if tier == "quick" and n1 == 2 and n2 == 2:
+                        continue  # ~7 min as a single job; thorough only
                     jobs.append(J("bitset-%d-%d" % (n1, n2), "zzH_bitset", params={"n1": n1, "n2": n2}, no_phi_conc=True))
         elif nm == "matchLen":
             for la in range(n + 1):
